@@ -437,6 +437,29 @@ func main() {
 					emit(op, "ok")
 					run.Count("c15:extra_" + what)
 				}
+				if kind == "disk" && r.Intn(6) == 0 {
+					// a snapshot installation that fails half way (the stream ends early), then a restart: the replica is what
+					// it was before, in this life and in the next
+					snap := ms[0].snapshot()
+					cut := 1 + r.Intn(12)
+					if cut < len(snap) {
+						failed := guard(func() { ms[1].recover(snap[:len(snap)-cut]) })
+						run.Count("c15:failed_snapshot_installation")
+						if !failed {
+							run.Count("c15:truncated_snapshot_accepted")
+						} else {
+							op := J{"op": "extra", "id": 1, "what": "reopen"}
+							ops = append(ops, J{"op": "failed-install", "id": 1, "cut": cut}, op)
+							if guard(func() { ms[1].extra("reopen") }) {
+								emit(op, "panic")
+								fail("restart_transparent", "crash-on-reopen-after-failed-install", kind+": restarting after a failed snapshot installation crashed the replica")
+								dead = true
+								break
+							}
+							emit(op, "ok")
+						}
+					}
+				}
 				if r.Intn(6) == 0 {
 					// hand replica 0's snapshot over to a fresh replica that replaces replica 1
 					snap := ms[0].snapshot()
